@@ -702,7 +702,7 @@ class TypedGen:
                 # projections out of a literal: the type is the one recorded for that element when the literal was visited;
                 # a field of a value BUILT from a dictionary literal (the parameter of an immediately called lambda): the
                 # field's type in the dataclass made for that literal
-                shape = rng.choice(["attr", "attr", "key", "key2", "tup0", "tup1", "tupT", "dcattr", "dcattr2", "dckey"])
+                shape = rng.choice(["attr", "attr", "key", "key2", "tup0", "tup1", "tupT", "dcattr", "dcattr2", "dckey", "dupattr", "dupattr2"])
                 if shape in ("dcattr", "dcattr2", "dckey"):
                     dv = rng.choice(["d", "rec", "x"])
                     use, ty = {"dcattr": (f"{dv}.pt", a.ty), "dcattr2": (f"{dv}.n", c.ty), "dckey": (f"{dv}['n']", c.ty)}[shape]
@@ -710,6 +710,16 @@ class TypedGen:
                     kw = rng.random() < 0.3
                     b = TExpr(f"(lambda {dv}: {use})({dv + '=' if kw else ''}{lit_s})", f"(lambda {dv}: {use})({dv + '=' if kw else ''}{lit_n})", ty,
                               a.log + c.log, a.md + c.md, a.refusal or c.refusal)
+                    return scope_param, b
+                if shape in ("dupattr", "dupattr2"):
+                    # the same key twice: the value - and so the type - of the field is the LAST entry's
+                    if shape == "dupattr":
+                        lit_s, lit_n, ty = "{'pt': %s, 'n': 1, 'pt': %s}" % (c.src, a.src), "{'pt': %s, 'n': 1, 'pt': %s}" % (c.norm, a.norm), a.ty
+                        logs, mds = c.log + a.log, c.md + a.md
+                    else:
+                        lit_s, lit_n, ty = "{'pt': %s, 'pt': %s, 'n': 1}" % (a.src, c.src), "{'pt': %s, 'pt': %s, 'n': 1}" % (a.norm, c.norm), c.ty
+                        logs, mds = a.log + c.log, a.md + c.md
+                    b = TExpr(lit_s + ".pt", lit_n + ".pt", ty, logs, mds, a.refusal or c.refusal)
                     return scope_param, b
                 if shape == "attr":
                     pre, post, ty = "{'pt': %s, 'n': %s}", ".pt", a.ty
